@@ -129,8 +129,17 @@ TWDeser == IsEvent("WDeser") /\ LET e == Log[l]  b == blob[e.blob] IN
             /\ env' = [env EXCEPT !.wide = (e.dst :> b.w) @@ @]
             /\ UNCHANGED <<obj, blob>>
 
+\* a sketch restored from an image is adopted AS IT IS (its level structure is not judged here: an image with an empty top
+\* level does not round-trip, the recorded known finding, judged at Deser events); n, configuration and the own clauses are
+TWAdopt == IsEvent("WAdopt") /\ LET e == Log[l]  b == blob[e.blob] IN
+            /\ Chk("C20:n-exact-wide", e.n = b.w.n)
+            /\ Chk("C09:config", e.k = b.w.k /\ e.dim = b.w.dim)
+            /\ WideOK(e, b.w)
+            /\ env' = [env EXCEPT !.wide = (e.dst :> b.w) @@ @]
+            /\ UNCHANGED <<obj, blob>>
+
 TInit == obj = <<>> /\ l = 1 /\ blob = <<>> /\ env = [coord |-> <<>>, R |-> 0, S |-> 1, kernel |-> "l1", zero |-> 0, wide |-> <<>>]
 TNext == TBegin \/ TNew \/ TUpdate \/ TUpdateBad \/ TMerge \/ TMergeBad \/ TEst \/ TObs \/ TCopy \/ TSer \/ TDeser \/ TTwin
-         \/ TWNew \/ TWStep \/ TWSer \/ TWDeser
+         \/ TWNew \/ TWStep \/ TWSer \/ TWDeser \/ TWAdopt
 TSpec == TInit /\ [][TNext]_tvars
 ====
